@@ -65,9 +65,10 @@ type PeerSpec struct {
 
 // Collision is a pair of registrations executed in a grandchild process.
 type Collision struct {
-	ID    string
-	Class string
-	A, B  Reg
+	ID     string
+	Class  string
+	A, B   Reg
+	Single bool // only A is performed: ONE registration (a controller) whose own names may collide
 }
 
 // Program is what a generated main package hands to Main.
@@ -125,7 +126,9 @@ type CollisionReport struct {
 	NamesA   []string `json:"names_a"`
 	NamesB   []string `json:"names_b"`
 	Shadow   string   `json:"shadow,omitempty"` // who answered the shared name when both registrations survived
-	Problem  string   `json:"problem,omitempty"`
+	// Single runs that survived: every distinct returned name was requested; the handler tags that ran
+	Answers map[string][]string `json:"answers,omitempty"`
+	Problem string              `json:"problem,omitempty"`
 }
 
 // DirectReport is one direct evaluation of the mapper.
@@ -552,10 +555,12 @@ func runPeer(idx int, spec PeerSpec) (rep PeerReport) {
 // ---------- collisions (grandchild processes) ----------
 
 type collideOut struct {
-	NamesA   []string `json:"names_a"`
-	NamesB   []string `json:"names_b"`
-	Survived bool     `json:"survived"`
-	Shadow   string   `json:"shadow,omitempty"`
+	NamesA   []string            `json:"names_a"`
+	NamesB   []string            `json:"names_b"`
+	Survived bool                `json:"survived"`
+	Shadow   string              `json:"shadow,omitempty"`
+	Answers  map[string][]string `json:"answers,omitempty"`
+	Problem  string              `json:"problem,omitempty"`
 }
 
 // collideMain runs inside the grandchild: two registrations on one peer.
@@ -572,6 +577,39 @@ func collideMain(c Collision, out string) {
 	}
 	o.NamesA = rc.do(c.A)
 	write()
+	if c.Single {
+		// one registration survived: request every distinct returned name and note who answers
+		o.Survived = true
+		write()
+		kind := "push"
+		if isCallKind(c.A.Kind) {
+			kind = "call"
+		}
+		var ps []probe
+		seen := map[string]bool{}
+		for i, n := range o.NamesA {
+			if n != "" && !seen[n] && len(n) <= 250 {
+				seen[n] = true
+				ps = append(ps, probe{fmt.Sprintf("X%d", i), kind, n, "registered", n})
+			}
+		}
+		sent := srv.RouteCallFunc(C10Sentinel)
+		reps, problem := runProbes(srv, "X", ps, sent)
+		if problem != "" {
+			o.Problem = problem
+		} else {
+			o.Answers = map[string][]string{}
+			for _, r := range reps {
+				tags := []string{}
+				for _, e := range r.Events {
+					tags = append(tags, e.Tag)
+				}
+				o.Answers[r.Name] = tags
+			}
+		}
+		write()
+		os.Exit(0)
+	}
 	o.NamesB = rc.do(c.B)
 	o.Survived = true
 	write()
@@ -656,7 +694,10 @@ func runCollisions(cs []Collision, dir string) []CollisionReport {
 			if jb, e := os.ReadFile(f); e == nil {
 				var o collideOut
 				if json.Unmarshal(jb, &o) == nil {
-					r.NamesA, r.NamesB, r.Survived, r.Shadow = o.NamesA, o.NamesB, o.Survived, o.Shadow
+					r.NamesA, r.NamesB, r.Survived, r.Shadow, r.Answers = o.NamesA, o.NamesB, o.Survived, o.Shadow, o.Answers
+					if o.Problem != "" {
+						r.Problem = o.Problem
+					}
 				}
 			}
 			os.Remove(f)
